@@ -11,7 +11,7 @@ import (
 	"verif/checker/ssax"
 )
 
-func init() { Registry["C13"] = Spec{Run: runC13} }
+func init() { Registry["C13"] = Spec{Run: runC13, Packages: []string{"cache"}} }
 
 // reachesRemove: functions of package cache from which os.Remove* is reachable.
 func removers(p *core.Prog) map[*ssa.Function]bool {
